@@ -944,10 +944,46 @@ def derived_state_refreshed(ctx, rel, cls, rule, content_attr="lines", exempt=()
     if cnode is None or not meths:
         raise AnalysisError(f"anchor vanished: class {cls} in {rel}")
 
-    def stored(fn):
-        return {t.attr for st in ast.walk(fn) if isinstance(st, (ast.Assign, ast.AugAssign, ast.AnnAssign))
-                for t in (st.targets if isinstance(st, ast.Assign) else [st.target])
-                if isinstance(t, ast.Attribute) and isinstance(t.value, ast.Name) and t.value.id in ("self", "file") and t.attr.startswith("_")}
+    from .exprnorm import _dead_ids
+
+    def stored(fn, refresh=False):
+        """private attributes of the object that the method stores (any target form, tuple elements included).  With `refresh`:
+        only stores that bring the attribute up to date - live code, a value (not a bare annotation) that does not read the attribute
+        itself, in a method that does not read the attribute before it stores it (a memo that returns early when it is set)"""
+        dead = _dead_ids(fn) if refresh else set()
+        out = set()
+        reads_first = set()
+        if refresh:
+            first_store = {}
+            for st in ast.walk(fn):
+                for x in ast.walk(st) if isinstance(st, (ast.Assign, ast.AugAssign, ast.AnnAssign)) else []:
+                    if isinstance(x, ast.Attribute) and isinstance(x.ctx, ast.Store) and isinstance(x.value, ast.Name) and x.value.id in ("self", "file"):
+                        first_store[x.attr] = min(first_store.get(x.attr, 10 ** 9), getattr(x, "lineno", 0))
+            for x in ast.walk(fn):
+                nm_ = None
+                if isinstance(x, ast.Attribute) and isinstance(x.ctx, ast.Load) and isinstance(x.value, ast.Name) and x.value.id in ("self", "file"):
+                    nm_ = x.attr
+                elif isinstance(x, ast.Call) and call_name(x) == "getattr" and len(x.args) >= 2 and isinstance(x.args[1], ast.Constant) \
+                        and isinstance(x.args[0], ast.Name) and x.args[0].id in ("self", "file"):
+                    nm_ = x.args[1].value
+                if nm_ in first_store and getattr(x, "lineno", 0) < first_store[nm_]:
+                    reads_first.add(nm_)
+        for st in ast.walk(fn):
+            if not isinstance(st, (ast.Assign, ast.AugAssign, ast.AnnAssign)) or id(st) in dead:
+                continue
+            if refresh and (getattr(st, "value", None) is None):
+                continue
+            for t in (st.targets if isinstance(st, ast.Assign) else [st.target]):
+                for x in ast.walk(t):
+                    if isinstance(x, ast.Attribute) and isinstance(x.ctx, ast.Store) and isinstance(x.value, ast.Name) and x.value.id in ("self", "file") \
+                            and x.attr.startswith("_"):
+                        if refresh:
+                            val_reads = any(isinstance(y, ast.Attribute) and y.attr == x.attr and isinstance(y.value, ast.Name) and y.value.id in ("self", "file")
+                                            or isinstance(y, ast.Constant) and y.value == x.attr for y in ast.walk(st.value))
+                            if val_reads or x.attr in reads_first:
+                                continue
+                        out.add(x.attr)
+        return out
     all_attrs = set()
     for n_, f in meths.items():
         if n_ not in ("__init__",):
@@ -960,7 +996,7 @@ def derived_state_refreshed(ctx, rel, cls, rule, content_attr="lines", exempt=()
         if name in seen or name not in meths:
             return set()
         seen.add(name)
-        out = stored(meths[name])
+        out = stored(meths[name], refresh=True)
         for c in ast.walk(meths[name]):
             if isinstance(c, ast.Call) and isinstance(c.func, ast.Attribute) and isinstance(c.func.value, ast.Name) and c.func.value.id in ("self", "file"):
                 out |= closure(c.func.attr, seen)
